@@ -42,6 +42,13 @@ type Plan struct {
 	// abstractMu.
 	planning map[*ast.Field]bool
 
+	// perRequest marks the throw-away planner that ExecutePlan uses to collect
+	// again, for one request, the selections whose content depends on
+	// variable-driven @skip / @include (see replan); vars are that request's
+	// coerced variables. A prepared plan has neither.
+	perRequest bool
+	vars       map[string]interface{}
+
 	// abstractMu guards lazy population of fieldPlan.abstractAlternatives,
 	// which happens at execute time (concurrently across fields) the
 	// first time each concrete type is encountered for an abstract field.
@@ -55,6 +62,14 @@ type Plan struct {
 type selectionPlan struct {
 	parentType *Object
 	fields     []*fieldPlan
+
+	// dynamic is set when a variable-driven @skip / @include decides which
+	// fields, which occurrences of a merged field or which fragments belong to
+	// this selection. Merging (by response key, of sub-selections, of fragment
+	// spreads) must only see what a request includes, so such a selection is
+	// collected again from its sources with the request's variables.
+	dynamic bool
+	sources []*ast.SelectionSet
 }
 
 // fieldPlan is one entry in a selectionPlan: enough to resolve, run,
@@ -190,7 +205,7 @@ func (p *Plan) planSelectionSet(parentType *Object, selectionSet *ast.SelectionS
 	if visitedFragmentNames == nil {
 		visitedFragmentNames = map[string]bool{}
 	}
-	sp := &selectionPlan{parentType: parentType}
+	sp := &selectionPlan{parentType: parentType, sources: []*ast.SelectionSet{selectionSet}}
 	keyed := map[string]int{}
 	p.collectInto(parentType, selectionSet, visitedFragmentNames, sp, keyed, nil)
 	if len(sp.fields) == 0 {
@@ -278,6 +293,7 @@ func (p *Plan) planMergedSelectionsForType(parentType *Object, fieldASTs []*ast.
 		if f == nil || f.SelectionSet == nil {
 			continue
 		}
+		sp.sources = append(sp.sources, f.SelectionSet)
 		p.collectInto(parentType, f.SelectionSet, visited, sp, keyed, nil)
 	}
 	if len(sp.fields) == 0 {
@@ -309,7 +325,7 @@ func (p *Plan) collectInto(parentType *Object, selectionSet *ast.SelectionSet, v
 	for _, iSelection := range selectionSet.Selections {
 		switch sel := iSelection.(type) {
 		case *ast.Field:
-			pred, alwaysSkip := planDirectives(sel.Directives)
+			pred, alwaysSkip := p.directives(sp, sel.Directives)
 			if alwaysSkip {
 				continue
 			}
@@ -351,7 +367,7 @@ func (p *Plan) collectInto(parentType *Object, selectionSet *ast.SelectionSet, v
 			sp.fields = append(sp.fields, fp)
 
 		case *ast.InlineFragment:
-			pred, alwaysSkip := planDirectives(sel.Directives)
+			pred, alwaysSkip := p.directives(sp, sel.Directives)
 			if alwaysSkip {
 				continue
 			}
@@ -363,7 +379,7 @@ func (p *Plan) collectInto(parentType *Object, selectionSet *ast.SelectionSet, v
 			}
 
 		case *ast.FragmentSpread:
-			pred, alwaysSkip := planDirectives(sel.Directives)
+			pred, alwaysSkip := p.directives(sp, sel.Directives)
 			if alwaysSkip {
 				continue
 			}
@@ -391,6 +407,47 @@ func (p *Plan) collectInto(parentType *Object, selectionSet *ast.SelectionSet, v
 			}
 		}
 	}
+}
+
+// directives is planDirectives for one selection of sp. In a prepared plan a
+// variable-driven directive marks sp as dynamic; in the per-request planner
+// it is decided on the spot, so excluded selections take no part in merging.
+func (p *Plan) directives(sp *selectionPlan, directives []*ast.Directive) (pred func(map[string]interface{}) bool, alwaysSkip bool) {
+	pred, alwaysSkip = planDirectives(directives)
+	if pred == nil {
+		return nil, alwaysSkip
+	}
+	if p.perRequest {
+		return nil, !pred(p.vars)
+	}
+	sp.dynamic = true
+	return pred, false
+}
+
+// replan collects a dynamic selection again for one request, with every
+// directive decided by that request's variables.
+func (p *Plan) replan(sp *selectionPlan, vars map[string]interface{}) *selectionPlan {
+	rp := &Plan{
+		schema:     p.schema,
+		operation:  p.operation,
+		fragments:  p.fragments,
+		rootType:   p.rootType,
+		isMutation: p.isMutation,
+		perRequest: true,
+		vars:       vars,
+	}
+	out := &selectionPlan{parentType: sp.parentType, sources: sp.sources}
+	keyed := map[string]int{}
+	visited := map[string]bool{}
+	for _, selectionSet := range sp.sources {
+		rp.collectInto(sp.parentType, selectionSet, visited, out, keyed, nil)
+	}
+	for _, fp := range out.fields {
+		if fp.fieldDef != nil {
+			rp.planMergedFieldChildren(fp)
+		}
+	}
+	return out
 }
 
 // andPredicates returns a predicate that is true only when both inputs
@@ -692,6 +749,9 @@ func ExecutePlan(plan *Plan, p ExecuteParams) (result *Result) {
 func executePlannedSelection(eCtx *executionContext, sp *selectionPlan, source interface{}, parentType *Object, path *ResponsePath) map[string]interface{} {
 	if sp == nil {
 		return map[string]interface{}{}
+	}
+	if sp.dynamic && eCtx.plan != nil {
+		sp = eCtx.plan.replan(sp, eCtx.VariableValues)
 	}
 	if source == nil {
 		source = map[string]interface{}{}
